@@ -133,6 +133,10 @@ class C20(F.Spec):
                 name = b"a" * rng.choice([60, 62, 63, 64, 100])
             else:
                 name = b""
+            if rng.random() < .25:
+                # the SDK refuses some of the connection requests at once (route / memory / already connected): no callback follows
+                ops.append("connres " + " ".join(str(rng.choice([0, 0, -4, -1, -15])) for _ in range(4)))
+                tags.append("connect-refused")
             ops.append("resolve " + ("NULL" if nk == "null" else "EMPTY" if nk == "empty" else name.decode()))
             names.append(len(name[:63]))
             tags.append("name:" + nk)
@@ -175,6 +179,8 @@ class C20(F.Spec):
                         h.append("SENT 0 %s" % p[2][5:])
                     else:
                         h.append("SENT 1 %d" % (len(p[2]) // 2 if p[2] != "-" else 0))
+                elif x.startswith("CONNECTREFUSED"):
+                    h.append("CONNECTREFUSED")
                 elif x.startswith("CONNECT "):
                     ip = x.split()[1].split(":")[0]
                     idx = {"8.8.8.8": 0, "1.1.1.1": 1, "8.8.4.4": 2, "1.0.0.1": 3}.get(ip, -1)
@@ -211,7 +217,7 @@ class C20(F.Spec):
                 exp = spec_report(cur_name_len, p)
                 if exp is not None:
                     last_reply_expect = exp
-            if not pending and any(x.startswith("CONNECT") for x in g):
+            if not pending and any(x.startswith("CONNECT ") for x in g):
                 fs.append(F.Finding("connect-after-completion", "the resolver connects to a server although no request is "
                                     "pending, at op '%s'" % op[:40]))
             for cb in cbs:
